@@ -92,6 +92,7 @@ def run(ctx):
     # core fragment of Rt/TokRound.v (theorem parse_core_doc): deep nesting, scalars of every kind
     corefrag.run(ctx, ctx.scale(150, 3000), hm)
     corefrag.run3(ctx, ctx.scale(150, 3000), hm)
+    corefrag.run4(ctx, ctx.scale(150, 3000), hm)
     ctx.extra["rule"] = ("inputs: canonical texts of content-model documents (incl. documents that falsify wf clauses), random "
                          "lenient spellings of wf documents, and exhaustively every token sequence up to length 3 (thorough 4) over "
                          "a 30-symbol token alphabet as an assignment value; each accepted input is canonicalised, the result must "
